@@ -23,6 +23,7 @@ def run(ctx):
     R.size_accounting(ctx, "C16.1")
     R.exhaustion_guard(ctx, "C16.6")
     R.existing_files_are_read(ctx, "C16.7")
+    R.path_mapping(ctx, "C16.9")      # the percentage is taken over the files the metafile names, at the root the user gave
     from .conservation import zero_fill_conservation
     zero_fill_conservation(ctx, "C16.8")
 
